@@ -551,7 +551,7 @@ struct Engine {
         uintmax_t pos = pick_pos(a);
         set_op("emplace", sta, poscls(pos, sz) + "," + cntcls(a, 1), fmt("P%d pos=%ju %d.%u", ai, pos, x.key, x.pay));
         oi.point = pos;
-        window([&] { ret_idx = v.emplace(v.begin() + pos, x.key, x.pay) - v.begin(); });
+        window([&] { { auto it_ = v.emplace(v.begin() + pos, x.key, x.pay); ret_idx = it_ - v.begin(); } });
         mo.insert(mo.begin() + pos, x);
         exp_idx = pos;
         break;
@@ -563,7 +563,7 @@ struct Engine {
         set_op("insert(pos,const&)", sta, poscls(pos, sz) + "," + cntcls(a, 1), fmt("P%d pos=%ju %d.%u", ai, pos, x.key, x.pay));
         E *e = make_hold(x);
         oi.point = pos;
-        window([&] { ret_idx = v.insert(v.begin() + pos, *e) - v.begin(); });
+        window([&] { { auto it_ = v.insert(v.begin() + pos, *e); ret_idx = it_ - v.begin(); } });
         drop_hold();
         mo.insert(mo.begin() + pos, x);
         exp_idx = pos;
@@ -576,7 +576,7 @@ struct Engine {
         set_op("insert(pos,&&)", sta, poscls(pos, sz) + "," + cntcls(a, 1), fmt("P%d pos=%ju %d.%u", ai, pos, x.key, x.pay));
         E *e = make_hold(x);
         oi.point = pos;
-        window([&] { ret_idx = v.insert(v.begin() + pos, std::move(*e)) - v.begin(); });
+        window([&] { { auto it_ = v.insert(v.begin() + pos, std::move(*e)); ret_idx = it_ - v.begin(); } });
         drop_hold();
         mo.insert(mo.begin() + pos, x);
         exp_idx = pos;
@@ -590,7 +590,7 @@ struct Engine {
         set_op("insert(pos,n,v)", sta, poscls(pos, sz) + "," + cntcls(a, cnt), fmt("P%d pos=%ju n=%ju %d.%u", ai, pos, cnt, x.key, x.pay));
         E *e = make_hold(x);
         oi.point = pos;
-        window([&] { ret_idx = v.insert(v.begin() + pos, static_cast<SizeT>(cnt), *e) - v.begin(); });
+        window([&] { { auto it_ = v.insert(v.begin() + pos, static_cast<SizeT>(cnt), *e); ret_idx = it_ - v.begin(); } });
         drop_hold();
         mo.insert(mo.begin() + pos, cnt, x);
         exp_idx = pos;
@@ -604,7 +604,7 @@ struct Engine {
         set_op("insert(pos,range)", sta, std::string(rkname(kind)) + "," + poscls(pos, sz) + "," + cntcls(a, cnt),
                fmt("P%d pos=%ju %s %s", ai, pos, rkname(kind), vals_str(vals).c_str()));
         oi.point = pos;
-        with_range<E>(kind, vals, [&](auto f, auto l) { window([&] { ret_idx = v.insert(v.begin() + pos, f, l) - v.begin(); }); });
+        with_range<E>(kind, vals, [&](auto f, auto l) { window([&] { { auto it_ = v.insert(v.begin() + pos, f, l); ret_idx = it_ - v.begin(); } }); });
         mo.insert(mo.begin() + pos, vals.begin(), vals.end());
         exp_idx = pos;
         break;
@@ -616,7 +616,7 @@ struct Engine {
         uintmax_t pos = pick_pos(a);
         set_op("insert(pos,il)", sta, poscls(pos, sz) + "," + cntcls(a, cnt), fmt("P%d pos=%ju %s", ai, pos, vals_str(vals).c_str()));
         oi.point = pos;
-        with_il(vals, [&](std::initializer_list<E> il) { window([&] { ret_idx = v.insert(v.begin() + pos, il) - v.begin(); }); });
+        with_il(vals, [&](std::initializer_list<E> il) { window([&] { { auto it_ = v.insert(v.begin() + pos, il); ret_idx = it_ - v.begin(); } }); });
         mo.insert(mo.begin() + pos, vals.begin(), vals.end());
         exp_idx = pos;
         break;
@@ -653,7 +653,7 @@ struct Engine {
         uintmax_t pos = std::min(pick_pos(a), sz - 1);
         set_op("erase(pos)", sta, poscls(pos, sz - 1 == pos ? pos : sz), fmt("P%d pos=%ju", ai, pos));
         oi.point = pos;
-        window([&] { ret_idx = v.erase(v.begin() + pos) - v.begin(); });
+        window([&] { { auto it_ = v.erase(v.begin() + pos); ret_idx = it_ - v.begin(); } });
         mo.erase(mo.begin() + pos);
         exp_idx = pos;
         break;
@@ -663,7 +663,7 @@ struct Engine {
         uintmax_t l = f + (rng.chance(1, 3) ? 0 : rng.below(static_cast<uint32_t>(sz - f + 1)));
         set_op("erase(first,last)", sta, poscls(f, sz) + (l == f ? ",empty" : l == sz ? ",to-end" : ",inner"), fmt("P%d [%ju,%ju)", ai, f, l));
         oi.point = f;
-        window([&] { ret_idx = v.erase(v.begin() + f, v.begin() + l) - v.begin(); });
+        window([&] { { auto it_ = v.erase(v.begin() + f, v.begin() + l); ret_idx = it_ - v.begin(); } });
         mo.erase(mo.begin() + f, mo.begin() + l);
         exp_idx = f;
         break;
@@ -900,7 +900,7 @@ struct Engine {
         if (!room) return false;
         set_op("alias:insert(pos,v[i])", sta, rel + "," + cntcls(a, 1), fmt("P%d pos=%ju src=%ju", ai, pos, src));
         oi.point = std::min(pos, src);
-        window([&] { ret_idx = v.insert(v.begin() + pos, v[static_cast<SizeT>(src)]) - v.begin(); });
+        window([&] { { auto it_ = v.insert(v.begin() + pos, v[static_cast<SizeT>(src)]); ret_idx = it_ - v.begin(); } });
         mo.insert(mo.begin() + pos, x);
         exp_idx = pos;
         break;
@@ -908,7 +908,7 @@ struct Engine {
         uintmax_t cnt = pick_count(a);
         set_op("alias:insert(pos,n,v[i])", sta, rel + "," + cntcls(a, cnt), fmt("P%d pos=%ju n=%ju src=%ju", ai, pos, cnt, src));
         oi.point = std::min(pos, src);
-        window([&] { ret_idx = v.insert(v.begin() + pos, static_cast<SizeT>(cnt), v[static_cast<SizeT>(src)]) - v.begin(); });
+        window([&] { { auto it_ = v.insert(v.begin() + pos, static_cast<SizeT>(cnt), v[static_cast<SizeT>(src)]); ret_idx = it_ - v.begin(); } });
         mo.insert(mo.begin() + pos, cnt, x);
         exp_idx = pos;
         break;
@@ -917,7 +917,7 @@ struct Engine {
         if (!room) return false;
         set_op("alias:emplace(pos,v[i])", sta, rel + "," + cntcls(a, 1), fmt("P%d pos=%ju src=%ju", ai, pos, src));
         oi.point = std::min(pos, src);
-        window([&] { ret_idx = v.emplace(v.begin() + pos, v[static_cast<SizeT>(src)]) - v.begin(); });
+        window([&] { { auto it_ = v.emplace(v.begin() + pos, v[static_cast<SizeT>(src)]); ret_idx = it_ - v.begin(); } });
         mo.insert(mo.begin() + pos, x);
         exp_idx = pos;
         break;
@@ -925,7 +925,7 @@ struct Engine {
         if (!room) return false;
         set_op("alias:emplace(pos,&v[i])", sta, rel + "," + cntcls(a, 1), fmt("P%d pos=%ju src=%ju", ai, pos, src));
         oi.point = std::min(pos, src);
-        window([&] { ret_idx = v.emplace(v.begin() + pos, static_cast<const E *>(&v[static_cast<SizeT>(src)])) - v.begin(); });
+        window([&] { { auto it_ = v.emplace(v.begin() + pos, static_cast<const E *>(&v[static_cast<SizeT>(src)])); ret_idx = it_ - v.begin(); } });
         mo.insert(mo.begin() + pos, x);
         exp_idx = pos;
         break;
